@@ -2,3 +2,5 @@
 pub mod util;
 pub mod bitops;
 pub mod prim;
+pub mod glue;
+pub mod zoo;
